@@ -94,12 +94,19 @@ def run(chk, repo):
     q = APath()
     q.env.update({'start': Aff.sym('F0'), 'position': off, 'length': ln})
     sj = ej = None
-    for n in ast.walk(rd.node):
-        if isinstance(n, ast.Assign) and unparse(n.targets[0]) == 'start_j':
-            sj = it.ev(q, n.value)
-            q.env['start_j'] = sj
-        if isinstance(n, ast.Assign) and unparse(n.targets[0]) == 'end_j':
-            ej = it.ev(q, n.value)
+    # the fragment interval the reader rebuilds: the start / end handed to FeatureLocation inside the fragment loop, whatever
+    # intermediate locals it goes through (they are evaluated in order over the affine domain)
+    rloops = [l for l in walk_no_nested(rd.node) if isinstance(l, ast.For) and G.find_calls(l, 'FeatureLocation')]
+    if len(rloops) == 1:
+        for st_ in rloops[0].body:
+            if isinstance(st_, ast.Assign) and len(st_.targets) == 1 and isinstance(st_.targets[0], ast.Name) and not G.find_calls(st_, 'FeatureLocation'):
+                try:
+                    q.env[st_.targets[0].id] = it.ev(q, st_.value)
+                except Exception:
+                    pass
+        fl_ = G.find_calls(rloops[0], 'FeatureLocation')
+        if len(fl_) == 1 and kwarg(fl_[0], 'start') is not None and kwarg(fl_[0], 'end') is not None:
+            sj, ej = it.ev(q, kwarg(fl_[0], 'start')), it.ev(q, kwarg(fl_[0], 'end'))
     ok = sj == Aff.sym('fragment.location.start') and ej == Aff.sym('fragment.location.end')
     w0 = [norm_stmt(s) for s in sorted((n for n in walk_no_nested(wr.node) if isinstance(n, ast.Assign) and unparse(n.targets[0]) == 'start'), key=lambda n: n.lineno)] == ['start = int(self.fragments[0].location.start)', 'start = str(start)']
     chk.ob('C13.a', 'reader(start + OFFSET, + LENGTH) inverts writer(fragment - start, end - start)', rd.where, ok and w0,
@@ -448,7 +455,9 @@ def pointer_runs(chk, repo, rid, ip, loop):
     from sa import sem, loops
     from sa.affine import Aff
     X = loop.target.id if isinstance(loop.target, ast.Name) else None
-    cands = sorted({unparse(n.target) for n in ast.walk(loop) if isinstance(n, ast.AugAssign) and isinstance(n.target, ast.Name) and isinstance(n.op, ast.Add)})
+    cands = sorted({unparse(n.target) for n in ast.walk(loop) if isinstance(n, ast.AugAssign) and isinstance(n.target, ast.Name) and isinstance(n.op, ast.Add)} |
+                   {t.id for n in ast.walk(loop) if isinstance(n, ast.Assign) for tg in n.targets for t in (tg.elts if isinstance(tg, ast.Tuple) else [tg])
+                    if isinstance(t, ast.Name) and any(isinstance(x, ast.Name) and x.id == t.id for x in ast.walk(n.value))})
     ok_acc, ACC, paths = False, None, []
     if X is not None:
         for c_ in cands:
@@ -531,9 +540,21 @@ def byte_offsets(chk, repo, rid, qual):
     lp = loops[0]
     L = lp.target.id
     head = c.node_for(lp)
-    acc = [n for n in c.nodes if n.kind == 'stmt' and isinstance(n.ast, ast.AugAssign) and isinstance(n.ast.op, ast.Add)
-           and isinstance(n.ast.value, ast.Call) and call_name(n.ast.value) == 'len']
-    ok = len(acc) == 1 and unparse(acc[0].ast.value.args[0]) == L
+    def acc_arg(a):
+        """the argument of len() by which statement `a` advances an offset (x += len(A); x = x + len(A); also as one element of a tuple assignment)"""
+        if isinstance(a, ast.AugAssign) and isinstance(a.op, ast.Add) and isinstance(a.value, ast.Call) and call_name(a.value) == 'len' and a.value.args:
+            return unparse(a.value.args[0])
+        if isinstance(a, ast.Assign) and len(a.targets) == 1:
+            pairs = list(zip(a.targets[0].elts, a.value.elts)) if isinstance(a.targets[0], ast.Tuple) and isinstance(a.value, ast.Tuple) \
+                and len(a.targets[0].elts) == len(a.value.elts) else [(a.targets[0], a.value)]
+            for t, v in pairs:
+                if isinstance(t, ast.Name) and isinstance(v, ast.BinOp) and isinstance(v.op, ast.Add):
+                    for x, y in ((v.left, v.right), (v.right, v.left)):
+                        if isinstance(x, ast.Name) and x.id == t.id and isinstance(y, ast.Call) and call_name(y) == 'len' and y.args:
+                            return unparse(y.args[0])
+        return None
+    acc = [n for n in c.nodes if n.kind == 'stmt' and acc_arg(n.ast) is not None]
+    ok = len(acc) == 1 and acc_arg(acc[0].ast) == L
     detail = f"offset accumulation statements: {[norm_stmt(a.ast) for a in acc]}"
     if ok:
         rebinds = [n for n in c.nodes if n.kind == 'stmt' and L in G.assigned_names(n.ast) and isinstance(n.ast, (ast.Assign, ast.AugAssign))
